@@ -272,7 +272,7 @@ func init() {
 		Real:        real, Stubs: stubs, FaultKinds: faults,
 		Quick:    kit.Budget{Runs: 20000, WallS: 100, CaseS: 120},
 		Thorough: kit.Budget{Runs: 300000, WallS: 1500, CaseS: 300},
-		Gen:      func(r *kit.Rand, t kit.Tier) Config { return GenConfig(r, t, GenOpts{OnlyCaches: -1}) },
+		Gen:      genC16,
 		Exec:     execC16, Shrink: ShrinkConfig,
 	})
 	kit.Register(kit.Spec[C19Case]{
